@@ -828,6 +828,45 @@ func checkObj(c ObjCase, r *kit.R) {
 		} else {
 			_, terr = ocsp.ParseResponse(flipIn(d, resp.TBSResponseData), ca)
 		}
+		// the public key changed: the same response signed by a key the issuer knows nothing of,
+		// (1) without a certificate, (2) with that key's self-signed certificate attached, once
+		// under its own name and once under an exact copy of the issuer's subject
+		other := keys.ByName("ecP-256-1")
+		if other.Name == k.Name {
+			other = keys.ByName("ecP-384-0")
+		}
+		t2 := t
+		t2.SignatureAlgorithm = 0
+		for _, variant := range []string{"bare", "own-name certificate", "issuer-name certificate"} {
+			t3 := t2
+			if variant != "bare" {
+				tmpl := &x509.Certificate{SerialNumber: big.NewInt(99), Subject: pkix.Name{CommonName: "responder of nobody"}, NotBefore: pki.Epoch.Add(-time.Hour), NotAfter: pki.Epoch.Add(48 * time.Hour),
+					KeyUsage: x509.KeyUsageDigitalSignature, ExtKeyUsage: []x509.ExtKeyUsage{x509.ExtKeyUsageOcspSigning}}
+				if variant == "issuer-name certificate" {
+					tmpl.RawSubject = ca.RawSubject
+				}
+				cd, cerr := x509.CreateCertificate(rand.Reader, tmpl, tmpl, other.ZPub, other.ZPriv)
+				if cerr != nil {
+					r.Failf("C03:harness:impostor", "cannot build the foreign responder certificate: %v", cerr)
+				}
+				fc, perr := x509.ParseCertificate(cd)
+				if perr != nil || (variant == "issuer-name certificate" && !bytes.Equal(fc.RawSubject, ca.RawSubject)) {
+					r.Failf("C03:harness:impostor", "foreign responder certificate: %v", perr)
+				}
+				t3.Certificate = fc
+			}
+			fd, ferr := ocsp.CreateResponse(ca, ca, t3, other.ZPriv.(crypto.Signer))
+			if ferr != nil {
+				r.Failf("C03:harness:impostor", "cannot sign the foreign response: %v", ferr)
+			}
+			if _, err := ocsp.ParseResponse(fd, nil); err != nil {
+				continue // not even well-formed for the parser: nothing to verify
+			}
+			if _, err := ocsp.ParseResponse(fd, ca); err == nil {
+				fail("foreign-key-accepted", "an OCSP response signed by a key unrelated to the issuer (%s) verifies against the issuer", variant)
+			}
+			r.Class("ocsp: foreign key, " + variant)
+		}
 	}
 	r.Class("created:" + c.API + ":" + algClass(a))
 	r.Class("key:" + k.Kind)
